@@ -424,6 +424,9 @@ def run(rep, tier):
     len_rule(rep, us["utils/utf8.h"], "utf8_decode")
     rep.floor("URL unescape byte cases", url_decode_rule(rep, us["src/proto/http.c"]), 500)
     rep.floor("Base64 encoder cases", base64_encode_rule(rep, us["utils/base64.h"]), 48)
+    from props import c14_audit
+    rep.floor("signed decimal parsers", c14_audit.unsigned_accumulation_rule(rep, us["utils/str2num.h"]), 6)
+    c14_audit.base64_exact_rule(rep, us["utils/base64.h"])
     # the hex codecs report what they wrote and zero what they did not: extent lints shared with C12
     from props import memsafe
     ub = us["src/utils/buf_str.c"]
